@@ -56,6 +56,16 @@ def run(ck: Check):
     # a malformed file is a Lithium error whatever else its lines hold, a well-formed one keeps its boundaries
     files += [f.replace(b"a DD", b"r\xe9gion DD").replace(b"c DD", b"\xe9\xff DD").replace(b"x DD", b"\xa4 DD").replace(b"DDEND DDB", b"DDEND\xfe DDB")
               for f in files[::3] if b"DD" in f]
+    # bytes that are line breaks in OTHER encodings (0x85 is NEL in latin-1 and an ellipsis in cp1252; 0x0a0d, LS next to
+    # stray bytes) on and around the marker lines of files that are not valid UTF-8 as a whole: the marker LINES are
+    # those of the UTF-8 / surrogateescape reading, wherever a stray byte sits
+    for stray in (b"", b"caf\xe9\n", b"\xff\xfe\n"):
+        for pos in ("front", "region", "tail"):
+            for bg, en in ((b"// DDBEGIN \x85 keep this\n", b"\x85 DDEND\n"), (b"x DDBEGIN\xe2\x80\xa8", b"\xe2\x80\xa9DDEND y\n"),
+                           (b"a\x85DDBEGIN\x85b\n", b"c\x85DDEND\x85d"), (b"DDBEGIN\xc2\x85", b"DDEND\xc2")):
+                body = b"l1\n\x85l2\nl3\xe2\x80\xa8l4\n"
+                files.append((stray if pos == "front" else b"") + bg + (stray if pos == "region" else b"") + body + en
+                             + (stray if pos == "tail" else b""))
     cases, impl = [], []
     for data in files:
         ref = reference(data)
